@@ -645,8 +645,15 @@ _ENT = _re.compile(r"&#?\w+;")
 class Ser:
     """Tree -> source text, recording every expression occurrence."""
 
-    def __init__(self, pretty: bool = False, seps: bool = False) -> None:
+    def __init__(self, pretty: bool = False, seps: bool = False,
+                 data: bool = False) -> None:
         self.seps = seps                # unusual line separators in text
+        # statements spelled as HTML5 data attributes (data-tal-content,
+        # data-metal-use-macro, data-i18n-translate): the template is then
+        # compiled with enable_data_attributes=True
+        self.data = data
+        self.mpre = "data-metal-" if data else "metal:"
+        self.ipre = "data-i18n-" if data else "i18n:"
         self.buf: list[str] = []
         self.pos = 0
         self.occ: list[dict] = []       # expression occurrences
@@ -767,7 +774,12 @@ class Ser:
             self.w(' %s="' % name)
             self.parts(parts)
             self.w('"')
-        pre = "" if n["talns"] else "tal:"
+        pre = "" if n["talns"] else ("data-tal-" if self.data else "tal:")
+        # (on an element of the tal: namespace every unprefixed attribute is
+        # a TAL statement: metal / i18n attributes keep their prefix there)
+        data_here = self.data and not n["talns"]
+        self.mpre = "data-metal-" if data_here else "metal:"
+        self.ipre = "data-i18n-" if data_here else "i18n:"
         for s in n["order"]:
             self.value_start = None
             if s == "define":
@@ -814,21 +826,21 @@ class Ser:
                     self.part_start = None
                 self.w('"')
             elif s == "translate":
-                self.w(self.sp() + 'i18n:translate=""')
+                self.w(self.sp() + self.ipre + 'translate=""')
             elif s == "i18n_name":
-                self.w(self.sp() + 'i18n:name="%s"' % n[s])
+                self.w(self.sp() + self.ipre + 'name="%s"' % n[s])
             elif s == "i18n_domain":
-                self.w(self.sp() + 'i18n:domain="%s"' % n[s])
+                self.w(self.sp() + self.ipre + 'domain="%s"' % n[s])
             elif s == "i18n_context":
-                self.w(self.sp() + 'i18n:context="%s"' % n[s])
+                self.w(self.sp() + self.ipre + 'context="%s"' % n[s])
             elif s == "define_macro":
-                self.w(self.sp() + 'metal:define-macro="%s"' % n[s])
+                self.w(self.sp() + self.mpre + 'define-macro="%s"' % n[s])
             elif s == "define_slot":
-                self.w(self.sp() + 'metal:define-slot="%s"' % n[s])
+                self.w(self.sp() + self.mpre + 'define-slot="%s"' % n[s])
             elif s == "fill_slot":
-                self.w(self.sp() + 'metal:fill-slot="%s"' % n[s])
+                self.w(self.sp() + self.mpre + 'fill-slot="%s"' % n[s])
             elif s == "use_macro":
-                self.w(self.sp() + 'metal:use-macro="')
+                self.w(self.sp() + self.mpre + 'use-macro="')
                 start = self.pos
                 text = "%s.macros['%s']" % (n.get("use_var") or "template",
                                             n[s])
@@ -888,8 +900,9 @@ class Ser:
 
 
 def serialise(tree: dict, pretty: bool = False,
-              fname: str | None = None, seps: bool = False) -> tuple[str, list]:
-    s = Ser(pretty, seps)
+              fname: str | None = None, seps: bool = False,
+              data: bool = False) -> tuple[str, list]:
+    s = Ser(pretty, seps, data)
     src = s.source(tree)
     for o in s.occ:
         o["file"] = fname
